@@ -1,31 +1,39 @@
 import Lean
 /-!
-`lake env lean --run Audit.lean <Module> <Namespace>`
-prints `THM <name> <axiom,axiom,...>` for every theorem whose name starts with `<Namespace>.`
-declared in `<Module>`, using the kernel environment of the compiled module.
+`lake env lean --run Audit.lean <Module> <FullTheoremName>...`
+For each name prints `THM <name> <axiom,axiom,...>` if it is a theorem of the kernel
+environment of the compiled module, else `MISSING <name>`.
+With a single extra argument of the form `ns:<Namespace>` lists every theorem of that namespace.
 -/
 open Lean
 
+def axiomsOf (env : Environment) (n : Name) : IO (List String) := do
+  let ctx : Core.Context := { fileName := "<audit>", fileMap := default }
+  let cst : Core.State := { env := env }
+  let (arr, _) ← (collectAxioms n : CoreM (Array Name)).toIO ctx cst
+  return arr.toList.map (·.toString)
+
 def main (args : List String) : IO UInt32 := do
   match args with
-  | [modS, nsS] =>
+  | modS :: rest =>
     initSearchPath (← findSysroot)
-    let mod := modS.toName
-    let ns := nsS.toName
-    let env ← importModules #[{ module := mod }] {} (trustLevel := 1024)
-    let mut names : Array Name := #[]
-    for (n, ci) in env.constants.toList do
-      if ns.isPrefixOf n && n != ns then
-        match ci with
-        | .thmInfo _ =>
-          if !n.isInternalDetail then names := names.push n
-        | _ => pure ()
-    let sorted := names.qsort (fun a b => a.toString < b.toString)
-    for n in sorted do
-      let ctx : Core.Context := { fileName := "<audit>", fileMap := default }
-      let cst : Core.State := { env := env }
-      let (arr, _) ← (collectAxioms n : CoreM (Array Name)).toIO ctx cst
-      let axs := arr.toList.map (·.toString)
-      IO.println s!"THM {n} {",".intercalate axs}"
+    let env ← importModules #[{ module := modS.toName }] {} (trustLevel := 1024)
+    for a in rest do
+      if a.startsWith "ns:" then
+        let ns := (a.drop 3).toString.toName
+        let mut names : Array Name := #[]
+        for (n, ci) in env.constants.toList do
+          if ns.isPrefixOf n && n != ns then
+            match ci with
+            | .thmInfo _ => if !n.isInternalDetail then names := names.push n
+            | _ => pure ()
+        for n in names.qsort (fun a b => a.toString < b.toString) do
+          IO.println s!"THM {n} {",".intercalate (← axiomsOf env n)}"
+      else
+        let n := a.toName
+        match env.find? n with
+        | some (.thmInfo _) => IO.println s!"THM {n} {",".intercalate (← axiomsOf env n)}"
+        | some _ => IO.println s!"NOTTHM {n}"
+        | none => IO.println s!"MISSING {n}"
     return 0
-  | _ => IO.eprintln "usage: Audit <Module> <Namespace>"; return 1
+  | _ => IO.eprintln "usage: Audit <Module> <names...>"; return 1
